@@ -117,43 +117,43 @@ Qed.
 
 (* ------------------------------------------------------------------ trees given by parent pointers *)
 (* the chain of parents from w up to (and including) a root *)
-Inductive path (c : list Z) : Z -> list Z -> Prop :=
-| path_root : forall r, zget c r = Some (-1) -> path c r [r]
-| path_step : forall w p l, zget c w = Some p -> p <> -1 -> path c p l -> path c w (w :: l).
+Inductive ppath (c : list Z) : Z -> list Z -> Prop :=
+| path_root : forall r, zget c r = Some (-1) -> ppath c r [r]
+| path_step : forall w p l, zget c w = Some p -> p <> -1 -> ppath c p l -> ppath c w (w :: l).
 
 Definition unique_root (c : list Z) (r : Z) : Prop :=
   zget c r = Some (-1) /\ forall w, zget c w = Some (-1) -> w = r.
 
 (* one root, and every vertex reaches it by following parents (hence no cycle, entries in range) *)
 Definition tree_parent (c : list Z) : Prop :=
-  (exists r, unique_root c r) /\ forall w, 0 <= w < zlen c -> exists l, path c w l.
+  (exists r, unique_root c r) /\ forall w, 0 <= w < zlen c -> exists l, ppath c w l.
 
 Definition dedge (c : list Z) (v p : Z) : Prop := zget c v = Some p /\ p <> -1.
 Definition uedge (c : list Z) (a b : Z) : Prop := dedge c a b \/ dedge c b a.
 
-Lemma path_head : forall c w l, path c w l -> exists t, l = w :: t.
+Lemma path_head : forall c w l, ppath c w l -> exists t, l = w :: t.
 Proof. intros c w l H; inversion H; eauto. Qed.
 
-Lemma path_inv : forall c w l, path c w l ->
+Lemma path_inv : forall c w l, ppath c w l ->
     (zget c w = Some (-1) /\ l = [w]) \/
-    (exists p l', zget c w = Some p /\ p <> -1 /\ path c p l' /\ l = w :: l').
+    (exists p l', zget c w = Some p /\ p <> -1 /\ ppath c p l' /\ l = w :: l').
 Proof. intros c w l H; inversion H; subst; [left; auto|right; eauto 8]. Qed.
 
-Lemma path_valid : forall c w l, path c w l -> forall x, In x l -> 0 <= x < zlen c.
+Lemma path_valid : forall c w l, ppath c w l -> forall x, In x l -> 0 <= x < zlen c.
 Proof.
   induction 1 as [r Hr|w p l Hw Hp Hpl IH]; intros x Hx.
   - destruct Hx as [<-|[]]. eapply zget_Some_range; eauto.
   - destruct Hx as [<-|Hx]; [eapply zget_Some_range; eauto|auto].
 Qed.
 
-Lemma path_det : forall c w l1, path c w l1 -> forall l2, path c w l2 -> l1 = l2.
+Lemma path_det : forall c w l1, ppath c w l1 -> forall l2, ppath c w l2 -> l1 = l2.
 Proof.
   induction 1 as [r Hr|w p l Hw Hp Hpl IH]; intros l2 H2; inversion H2; subst; auto; try congruence.
   assert (p = p0) by congruence. subst p0. f_equal. auto.
 Qed.
 
-Lemma path_in_tail : forall c w l, path c w l ->
-    forall x, In x l -> exists l2, path c x l2 /\ (length l2 <= length l)%nat.
+Lemma path_in_tail : forall c w l, ppath c w l ->
+    forall x, In x l -> exists l2, ppath c x l2 /\ (length l2 <= length l)%nat.
 Proof.
   induction 1 as [r Hr|w p l Hw Hp Hpl IH]; intros x Hx.
   - destruct Hx as [<-|[]]. exists [r]. split; [now constructor|auto].
@@ -162,7 +162,7 @@ Proof.
     + destruct (IH x Hx) as [l2 [H2 Hlen]]. exists l2. split; auto. simpl; lia.
 Qed.
 
-Lemma path_NoDup : forall c w l, path c w l -> NoDup l.
+Lemma path_NoDup : forall c w l, ppath c w l -> NoDup l.
 Proof.
   induction 1 as [r Hr|w p l Hw Hp Hpl IH].
   - constructor; [intros []|constructor].
@@ -172,20 +172,20 @@ Proof.
     subst l2. simpl in Hlen. lia.
 Qed.
 
-Lemma path_last_root : forall c w l, path c w l -> zget c (last l 0) = Some (-1).
+Lemma path_last_root : forall c w l, ppath c w l -> zget c (last l 0) = Some (-1).
 Proof.
   induction 1 as [r Hr|w p l Hw Hp Hpl IH]; simpl; auto.
   destruct (path_head _ _ _ Hpl) as [t ->]. exact IH.
 Qed.
 
-Lemma path_last_in : forall c w l, path c w l -> In (last l 0) l.
+Lemma path_last_in : forall c w l, ppath c w l -> In (last l 0) l.
 Proof.
   intros c w l H. destruct (path_head _ _ _ H) as [t ->].
   clear H. revert w. induction t as [|b t IH]; intros w; simpl; auto.
   right. apply IH.
 Qed.
 
-(* ------------------------------------------------------------------ the predecessor on a path and the reversed array *)
+(* ------------------------------------------------------------------ the predecessor on a ppath and the reversed array *)
 Fixpoint pred_in (l : list Z) (w : Z) : option Z :=
   match l with
   | a :: (b :: _) as t => if b =? w then Some a else pred_in t w
@@ -270,8 +270,8 @@ Proof.
   - intros x Hx. rewrite zlen_zset. apply Hv. now right.
 Qed.
 
-(* on a parent path, "a is the predecessor of y" means exactly "y is the parent of a" *)
-Lemma path_pred : forall c i l, path c i l ->
+(* on a parent ppath, "a is the predecessor of y" means exactly "y is the parent of a" *)
+Lemma path_pred : forall c i l, ppath c i l ->
     forall x y, pred_in l y = Some x <-> (In x l /\ zget c x = Some y /\ y <> -1).
 Proof.
   induction 1 as [r Hr|w p l Hw Hp Hpl IH]; intros x y.
@@ -290,9 +290,9 @@ Proof.
       * intros [[<-|Hin] [Hx Hy]]; [congruence|auto].
 Qed.
 
-(* ------------------------------------------------------------------ the Python loop computes the reversed path *)
+(* ------------------------------------------------------------------ the Python loop computes the reversed ppath *)
 Lemma to_root_loop_spec : forall c0 r, zget c0 r = Some (-1) ->
-    forall idx l, path c0 idx l -> NoDup l -> last l 0 = r ->
+    forall idx l, ppath c0 idx l -> NoDup l -> last l 0 = r ->
     forall fuel cur par grand,
       (length l <= S fuel)%nat -> zlen cur = zlen c0 ->
       (forall w, In w (tl l) -> zget cur w = zget c0 w) ->
@@ -371,10 +371,10 @@ Proof.
   replace (Z.to_nat (0 + Z.of_nat j')) with j' by lia. auto.
 Qed.
 
-(* the array re-rooting leaves behind: reverse the parent path of i, then mark i as root *)
+(* the array re-rooting leaves behind: reverse the parent ppath of i, then mark i as root *)
 Definition rerooted (c : list Z) (i : Z) (l : list Z) : list Z := zset (rev_writes c l) i (-1).
 
-Lemma path_length_le : forall c w l, path c w l -> (length l <= length c)%nat.
+Lemma path_length_le : forall c w l, ppath c w l -> (length l <= length c)%nat.
 Proof.
   intros c w l H.
   pose proof (path_NoDup _ _ _ H) as Hnd.
@@ -384,7 +384,7 @@ Proof.
   unfold zrange in Hle. now rewrite map_length, seq_length in Hle.
 Qed.
 
-Lemma to_root_spec : forall c r i l, unique_root c r -> path c i l ->
+Lemma to_root_spec : forall c r i l, unique_root c r -> ppath c i l ->
     to_root c i = Ok (rerooted c i l).
 Proof.
   intros c r i l Hur Hpath.
@@ -410,7 +410,7 @@ Qed.
 Section Rerooted.
   Variables (c : list Z) (r i : Z) (l : list Z).
   Hypothesis Hur : unique_root c r.
-  Hypothesis Hpath : path c i l.
+  Hypothesis Hpath : ppath c i l.
 
   Let c' := rerooted c i l.
 
@@ -437,7 +437,7 @@ Section Rerooted.
   Proof. rewrite <- last_is_r. eapply path_last_in; eauto. Qed.
 
   Lemma in_path_cases : forall w, In w l -> w = i \/ In w (tl l).
-  Proof. intros w H. destruct (path_head _ _ _ Hpath) as [t ->]. simpl in *. tauto. Qed.
+  Proof. intros w H. destruct (path_head _ _ _ Hpath) as [t Ht]. rewrite Ht in H. simpl in H. destruct H as [<-|H]; [now left|right; rewrite Ht; exact H]. Qed.
 
   Lemma rerooted_unique_root : unique_root c' i.
   Proof.
@@ -453,14 +453,14 @@ Section Rerooted.
         destruct (pred_in_tail _ _ Hin) as [a Ha]. congruence.
   Qed.
 
-  (* vertices on the old path now lead down to i *)
-  Lemma rerooted_path_on : forall t a, (exists pre, l = pre ++ a :: t) -> (exists la, path c' a la) ->
-      forall w, In w t -> exists l', path c' w l'.
+  (* vertices on the old ppath now lead down to i *)
+  Lemma rerooted_path_on : forall t a, (exists pre, l = pre ++ a :: t) -> (exists la, ppath c' a la) ->
+      forall w, In w t -> exists l', ppath c' w l'.
   Proof.
     induction t as [|b t IH]; intros a [pre Hl] [la Hla] w Hw; [inversion Hw|].
     assert (Hnd : NoDup l) by (eapply path_NoDup; eauto).
     assert (Hpb : pred_in l b = Some a) by (rewrite Hl; apply pred_in_app; rewrite <- Hl; auto).
-    assert (Hb : path c' b (b :: la)).
+    assert (Hb : ppath c' b (b :: la)).
     { econstructor; eauto.
       - rewrite rerooted_get. rewrite Hpb.
         destruct (b =? i) eqn:E; auto.
@@ -476,10 +476,10 @@ Section Rerooted.
     exists (pre ++ [a]). rewrite <- app_assoc. exact Hl.
   Qed.
 
-  Lemma rerooted_path_on_path : forall w, In w l -> exists l', path c' w l'.
+  Lemma rerooted_path_on_path : forall w, In w l -> exists l', ppath c' w l'.
   Proof.
     intros w Hw.
-    assert (Hi : path c' i [i]) by (constructor; apply rerooted_unique_root).
+    assert (Hi : ppath c' i [i]) by (constructor; apply rerooted_unique_root).
     destruct (in_path_cases w Hw) as [->|Hin]; [eauto|].
     destruct (path_head _ _ _ Hpath) as [t Ht].
     apply (rerooted_path_on t i); eauto.
@@ -488,7 +488,7 @@ Section Rerooted.
   Qed.
 
   (* every vertex still reaches the (new) root *)
-  Lemma rerooted_path_all : forall w lw, path c w lw -> exists l', path c' w l'.
+  Lemma rerooted_path_all : forall w lw, ppath c w lw -> exists l', ppath c' w l'.
   Proof.
     induction 1 as [r' Hr'|w p lw Hw Hp Hpl IH].
     - destruct Hur as [_ Hu]. apply Hu in Hr'. subst r'. apply rerooted_path_on_path. apply r_on_path.
@@ -550,7 +550,7 @@ Proof.
   intros c i [[r Hur] Hreach] Hi.
   destruct (Hreach i Hi) as [l Hpath].
   exists (rerooted c i l).
-  pose proof (rerooted_len c i l Hpath) as Hlen.
+  pose proof (rerooted_len c i l) as Hlen.
   split; [eapply to_root_spec; eauto|].
   split; [unfold zlen in Hlen; lia|].
   split; [intros a b; eapply rerooted_uedge; eauto|].
@@ -611,7 +611,7 @@ Proof.
 Qed.
 
 (* the boolean check used on generated inputs implies the hypothesis of the theorem *)
-Lemma climbs_path : forall fuel c v, climbs fuel c v = true -> exists l, path c v l.
+Lemma climbs_path : forall fuel c v, climbs fuel c v = true -> exists l, ppath c v l.
 Proof.
   induction fuel as [|f IH]; intros c v H; [discriminate|].
   simpl in H. destruct (zget c v) as [p|] eqn:E; [|discriminate].
@@ -638,10 +638,8 @@ Theorem to_root_tree : forall c i, tree_parent c -> 0 <= i < zlen c ->
 Proof.
   intros c i Ht Hi.
   destruct (to_root_correct c i Ht Hi) as [c' [H1 [H2 [H3 [H4 H5]]]]].
-  exists c'. repeat split; auto.
-  - destruct e as [a b]. rewrite !in_undirected_edges. rewrite H3. tauto.
-  - destruct e as [a b]. rewrite !in_undirected_edges. rewrite H3. tauto.
-  - now apply roots_unique.
+  exists c'. split; [exact H1|]. split; [exact H2|]. split; [|split; [now apply roots_unique|exact H5]].
+  intros [a b]. rewrite !in_undirected_edges. rewrite H3. tauto.
 Qed.
 
 (* any sequence of re-rootings *)
@@ -651,7 +649,7 @@ Theorem to_root_seq_tree : forall indices c, tree_parent c -> (forall i, In i in
                roots c' = match indices with [] => roots c | _ => [last indices 0] end /\ tree_parent c'.
 Proof.
   induction indices as [|i t IH]; intros c Ht Hin.
-  - exists c. simpl. repeat split; auto.
+  - exists c. simpl. split; [reflexivity|]. split; [reflexivity|]. split; [tauto|]. split; auto.
   - destruct (to_root_tree c i Ht (Hin i (or_introl eq_refl))) as [c1 [H1 [H2 [H3 [H4 H5]]]]].
     assert (Hz : zlen c1 = zlen c) by (unfold zlen; now rewrite H2).
     destruct (IH c1 H5) as [c' [G1 [G2 [G3 [G4 G5]]]]].
@@ -666,6 +664,3 @@ Example to_root_example :
   tree_parent [-1; 0; 1; 1; 3; 0] /\ to_root [-1; 0; 1; 1; 3; 0] 4 = Ok [1; 3; 1; 4; -1; 0].
 Proof. split; [apply tree_parentb_sound|]; vm_compute; reflexivity. Qed.
 
-(* ------------------------------------------------------------------ the pinned conversion is refuted by a witness *)
-Definition w_verts : list vtx := [(0,0,0,1); (1,0,0,2); (2,0,0,3); (3,0,0,4)].
-Definition w_morph : amorph vtx := mk_amorph vtx None w_verts [-1; 0; 1; 1] None.
